@@ -1,21 +1,21 @@
-\* C02 reciprocity -- quick
+\* C11 shape/registration, low-pass, clamp -- quick
 CONSTANTS
   ShiftStyle = "pad" LevelStyle = "match" TruncStyle = "exact" AnalyticStyle = "outer" BCubic = "plus"
-  Sizes = {302, 403}
+  Sizes = {202, 302, 203, 303, 402, 403, 502, 503, 404}
   Cells = {11, 23}
-  Halos = {99, 0, 1, 2, 3, 4}
-  ModeSet = {202, 402, 1212}
+  Halos = {99, 0, 1, 2}
+  ModeSet = {202, 402, 204, 404, 602, 302, 203, 1212, 1202}
   NZs = {3}
-  LevelLists = "single"
+  LevelLists = "mid"
   Tabs = {1}
   Analytic = {FALSE}
-  Family = "recip"
+  Family = "shape"
 INIT Init
 NEXT Next
 CHECK_DEADLOCK FALSE
 INVARIANT StagesAgree
 INVARIANT ShapeOrError
 INVARIANT ErrorsAreDeclared
-INVARIANT Recip
-INVARIANT RegularRun
+INVARIANT LowPass
+INVARIANT ClampEq
 INVARIANT Emit
